@@ -68,6 +68,10 @@ def values():
         [['alpha', 'beta', 'gamma'], {'z': 1, 'y': (1, 2, 3)}, 12345678901234567890],
         ('x' * 30, {3: 'c', 1: 'a', 2: 'b'}, [[[[1]]]]),
         Reg({'k2': [1, 2, 3], 'k1': 'v' * 20}),
+        # comments whose lines end in (or consist of) whitespace: several whitespace fragments at a line end, where a renderer trims
+        prettyprinter.comment({'k': [1, 2]}, 'first line of a docstring\n    \nlast line\n    '),
+        [prettyprinter.comment(1, 'x  '), prettyprinter.trailing_comment([1, 2], 'tail \t '), prettyprinter.comment('s', ' '), prettyprinter.comment(2, 'a\n \t \nb')],
+        {'text': 'ends in spaces   ' * 6, 'k': prettyprinter.comment('v', 'note   \n  indented  ')},
     ]
 
 
